@@ -717,10 +717,10 @@ def capped(ctx, sample, cap=4):
     return sample if sum(1 for s_ in ctx.samples if isinstance(s_, dict) and s_.get('level') == sample.get('level')) < cap else None
 
 
-def fail_corr(ctx, key, name, what, X, expect, mode=None, gname=None):
+def fail_corr(ctx, key, name, what, X, expect, mode=None, gname=None, found=True):
     ctx.violation(key, f'dataset {name}: {what}',
                   {'dataset': name, 'X': np.asarray(X).tolist(), 'what': what, 'mode': mode, 'grid': gname,
-                   'repro': repro_expect(X, expect, mode, gname)})
+                   'repro': repro_expect(X, expect, mode, gname)}, found=found)
 
 
 def slug(name):
@@ -919,10 +919,11 @@ def corr_l2(ctx, l2):
         ctx.obligation(f'corr:L2:linspace-arguments:{name}', ok_ls, 'correspondence', f"np.linspace called with {rec.get('linspace_calls')}")
         if not ok_ls:
             fail_corr(ctx, f'corr:L2:linspace-arguments:{slug(name)}', name,
-                      f"np.linspace called with {rec.get('linspace_calls')}, expected (EPSILON, 1-EPSILON, 50)", X, {'linspace': want_ls}, mode, gname)
+                      f"np.linspace called with {rec.get('linspace_calls')}, expected (EPSILON, 1-EPSILON, 50)", X, {'linspace': want_ls}, mode, gname,
+                      found=False)       # the SHAPE of the internal calls differs from the model's: the tie is broken, no outcome is shown wrong
         if rec['offdiag']:
             ctx.obligation(f'corr:L2:cdf-on-diagonal:{name}', False, 'correspondence', 'cumulative_distribution evaluated off the diagonal')
-            fail_corr(ctx, f'corr:L2:cdf-off-diagonal:{slug(name)}', name, 'cumulative_distribution evaluated at points that are not (z, z)', X, {}, mode, gname)
+            fail_corr(ctx, f'corr:L2:cdf-off-diagonal:{slug(name)}', name, 'cumulative_distribution evaluated at points that are not (z, z)', X, {}, mode, gname, found=False)
             continue
         if tau is None or tau != tau:
             continue
